@@ -48,6 +48,29 @@ EncEach(t, vs) == IF vs = <<>> THEN <<>> ELSE Enc(t, Head(vs)) \o EncEach(t, Tai
 EncAll(ts, vs) == IF ts = <<>> THEN <<>> ELSE Enc(Head(ts), Head(vs)) \o EncAll(Tail(ts), Tail(vs))
 EncPairs(kt, vt, ps) == IF ps = <<>> THEN <<>> ELSE Enc(kt, Head(ps)[1]) \o Enc(vt, Head(ps)[2]) \o EncPairs(kt, vt, Tail(ps))
 
+\* ------------------------------------------------------------------ encoding of a recorded serde call tree
+\* (self-describing: every node carries its kind), used for concrete Rust types whose shape nobody declared
+RECURSIVE EncTree(_), EncTrees(_, _)
+TreeIntK == {"u16", "i16", "u32", "i32", "u64", "i64", "u128", "i128"}
+EncTrees(ts, i) == IF i > Len(ts) THEN <<>> ELSE EncTree(ts[i]) \o EncTrees(ts, i + 1)
+EncTree(t) ==
+  CASE t.c \in {"bool", "u8", "i8"} -> <<t.v>>
+    [] t.c \in TreeIntK -> EncInt(t.c, t.v)
+    [] t.c \in {"f32", "f64"} -> t.v
+    [] t.c \in {"char", "str", "bytes"} -> SmallVar(Len(t.v)) \o t.v
+    [] t.c = "none" -> <<0>>
+    [] t.c = "some" -> <<1>> \o EncTree(t.v)
+    [] t.c \in {"unit", "unit_struct"} -> <<>>
+    [] t.c = "unit_variant" -> SmallVar(t.i)
+    [] t.c = "newtype_struct" -> EncTree(t.v)
+    [] t.c = "newtype_variant" -> SmallVar(t.i) \o EncTree(t.v)
+    [] t.c = "seq" -> SmallVar(Len(t.vs)) \o EncTrees(t.vs, 1)
+    [] t.c \in {"tuple", "tuple_struct"} -> EncTrees(t.vs, 1)
+    [] t.c = "tuple_variant" -> SmallVar(t.i) \o EncTrees(t.vs, 1)
+    [] t.c = "map" -> SmallVar(Len(t.ps)) \o EncTrees([i \in 1..(2 * Len(t.ps)) |-> t.ps[(i + 1) \div 2][2 - (i % 2)]], 1)
+    [] t.c = "struct" -> EncTrees([i \in 1..Len(t.fs) |-> t.fs[i].v], 1)
+    [] t.c = "struct_variant" -> SmallVar(t.i) \o EncTrees([i \in 1..Len(t.fs) |-> t.fs[i].v], 1)
+
 \* ------------------------------------------------------------------ decoding (left to right, first violated rule)
 \* a length prefix: [ok, n (int, only meaningful if small), big (BOOLEAN), pos]
 ReadLen(bs, p) == LET r == ReadVarint(Rest(bs, p), 64) IN
